@@ -69,8 +69,9 @@ func oracle(os optSet, input string, r scanRes) (vs [][2]string) {
 	return vs
 }
 
-// headerDirective: "-- atlas:delimiter <d>\n" at offset 0 (independent reading of the documented
-// header; the delimiter is the rest of the line, \n \r \t unescaped).
+// headerDirective: "-- atlas:delimiter <d>" on the first line (independent reading of the
+// documented header `-- atlas:delimiter` + spaces + printable ASCII; the delimiter is that
+// printable run with \n \r \t unescaped; the whole first line is the header).
 func headerDirective(in string) (delim string, n int, ok bool) {
 	const h = "-- atlas:delimiter "
 	if !strings.HasPrefix(in, h) {
@@ -81,6 +82,12 @@ func headerDirective(in string) (delim string, n int, ok bool) {
 		return "", 0, false
 	}
 	d := strings.TrimLeft(in[len(h):i], " ")
+	for k := 0; k < len(d); k++ {
+		if d[k] < ' ' || d[k] > '~' {
+			d = d[:k]
+			break
+		}
+	}
 	if d == "" {
 		return "", 0, false
 	}
